@@ -31,6 +31,28 @@ Definition res_all (eps : Z) (r rr req : res) : list Z :=
   tag 19 ++ eRes (multi r 3) ++
   tag 20 ++ eBool (greater_partly eps r rr DZero) ++ eBool (greater_partly eps r rr DInf).
 
+(* the comparisons only (no arithmetic): used on magnitudes where float64 arithmetic is not exact
+   but comparisons still are — integers up to 2^62 and the math.MaxFloat64 sentinel *)
+Definition res_cmp (eps : Z) (r rr req : res) : list Z :=
+  tag 6 ++ eBool (less r rr DZero) ++ eBool (less r rr DInf) ++
+  tag 7 ++ eBool (less_equal eps r rr DZero) ++ eBool (less_equal eps r rr DInf) ++
+  tag 8 ++ eNames (le_names eps r rr DZero) ++ eNames (le_names eps r rr DInf) ++
+  tag 9 ++ eBool (less_partly r rr DZero) ++ eBool (less_partly r rr DInf) ++
+  tag 10 ++ eBool (less_equal_partly eps r rr DZero) ++ eBool (less_equal_partly eps r rr DInf) ++
+  tag 11 ++ eBool (equal eps r rr) ++
+  tag 12 ++ eNames (le_dim_names r rr req) ++
+  tag 13 ++ eNames (lep_dim_names eps r rr req) ++
+  tag 14 ++ eNames (gp_dim_names r rr req) ++
+  tag 20 ++ eBool (greater_partly eps r rr DZero) ++ eBool (greater_partly eps r rr DInf) ++
+  tag 21 ++ eBool (less_equal eps r r DZero) ++ eBool (less_equal eps r r DInf) ++ eBool (equal eps r r).
+
+(* math.MaxFloat64 = (2^53 - 1) * 2^971 is an integer; the wire token -7777777 stands for it *)
+Definition max_float : Z := (2 ^ 53 - 1) * 2 ^ 971.
+Definition unsentinel (x : Z) : Z := if x =? -7777777 then max_float else x.
+Definition unsentinel_res (r : res) : res :=
+  mkRes (unsentinel (cpu r)) (unsentinel (mem r))
+        (match sc r with None => None | Some m => Some (unsentinel <$> m) end).
+
 Definition entry (sel : Z) (toks : list Z) : list Z :=
   match sel with
   | 1 => match run_dec (dPair dZ dZ) toks with
@@ -46,6 +68,14 @@ Definition entry (sel : Z) (toks : list Z) : list Z :=
           | Some (e, r, rr, q) => res_all e r rr q
           | None => bad_input end
   (* laws evaluated on the implementation's own results: must answer [1] *)
+  (* unit grid (one token = one Go unit, eps = 1): integers up to 2^60 in multiples of 2^12, where
+     every operation of res_all is still exact in float64 *)
+  | 11 => match run_dec (let* e := dZ in let* r := dRes in let* rr := dRes in let* q := dRes in ret (e, r, rr, q)) toks with
+          | Some (e, r, rr, q) => res_all e r rr q
+          | None => bad_input end
+  | 12 => match run_dec (let* e := dZ in let* r := dRes in let* rr := dRes in let* q := dRes in ret (e, r, rr, q)) toks with
+          | Some (e, r, rr, q) => res_cmp e (unsentinel_res r) (unsentinel_res rr) (unsentinel_res q)
+          | None => bad_input end
   | 101 => match run_dec (let* a := dZ in let* b := dZ in let* g := dZ in ret (a, b, g)) toks with
            | Some (a, b, g) => eBool (law_sat_add a b g) | None => bad_input end
   | 102 => match run_dec (let* a := dZ in let* b := dZ in let* g := dZ in ret (a, b, g)) toks with
